@@ -250,7 +250,7 @@ theorem c04_fence_blocks (s : Sys) (i : Nat) (a : Authority) (ps : List PSpec) (
     · cases hd : installDecision nd.chan a with
       | error r =>
         simp only
-        refine ⟨fun id leo hw h => ?_, fun _ => rfl, fun ch' h => Or.inl h⟩
+        refine ⟨fun id leo hw h => ?_, fun _ => trivial, fun ch' h => Or.inl h⟩
         -- the only `.installed` answer of the decision needs an unfenced request
         subst h
         unfold installDecision at hd
